@@ -41,6 +41,14 @@ CHECKS = {
                 technique="bounded-exhaustive enumeration: 11 primitives x {built-in, generated implicit, generated explicit} x all ordered pairs of a boundary value set x all predicates/operators, executed on the real types against the documented rules",
                 text="Every ordered pair of boundary values (incl. null, NaN variants, infinities, extremes) for every primitive and type kind is run through has_value/bool/value_or/in_range and all comparison operators (operator<=> cells and pre-C++20 cells are different code) and compared with a reference function; static min/max/null are compared with the SBE table typed in independently. No history, hence exploration.",
                 note="Trusted: compilers, the reference function (documented rules), the typed-in SBE default table."),
+    "C17": dict(category="exploration", design_ref="DESIGN.md 5 / C17",
+                technique="bounded-exhaustive enumeration of header composite layouts (permutations, optional counters, extra members, gaps, refs, integer types) x levels x numInGroup arguments; the real fillers run inside complete encode scripts and the whole buffer is compared with the reference model after every op",
+                text="Every messageHeader layout of the grammar (own schema each) and every group dimension layout is compiled by the tree's sbeppc; fill_message_header / fill_group_header (with 0, 1, max-1, max and the real count) are executed and the buffer must equal the model's header values at the layout's offsets/types/byte order with every other byte (gaps, extra members, canary) unchanged; the returned view must be the header.",
+                note="Trusted: compilers, reference model. numInGroup as <ref> is outside the alphabet (sbeppc aborts on it: C09)."),
+    "C19": dict(category="model_checking", design_ref="DESIGN.md 5 / C19",
+                technique="history exploration of the real visitors: a recording visitor is run to completion and with 'return true at the k-th callback' for every k; the event log (callback kind, member tag type, value bits / view address) is compared with the model's list, for kinds + catalogue schemas",
+                text="For every image of the bounded space the complete callback sequence and every prefix (stop at the k-th callback, all k) are executed on the generated visit entry points; each non-constant member must be reported once, in schema order, with its own tag type (checked through a generated tag-type -> path overload set) and the named accessor's value/address; entries in index order; enums report their value tag or unknown, sets every choice with its bit; after a complete visit the cursor is at the end of the visited view. Also under extended wire block lengths.",
+                note="Trusted: compilers, model. get_by_tag/set_by_tag equivalence is decided by the 'tag' drivers of C01/C02."),
 }
 
 NOT_YET = "not built yet in this round (planned, see DESIGN.md section 5)"
